@@ -10,7 +10,6 @@ import (
 	"hash/crc32"
 	"io"
 	"net"
-	"os"
 	"strings"
 	"sync"
 	"sync/atomic"
@@ -586,10 +585,109 @@ func runTimeout(r *h.Run, kind string, d time.Duration) {
 	r.NonTrivial(label)
 }
 
+// ---------------------------------------------------------------- F: receive error while a send is blocked
+
+// runStuckSend: the peer stops reading, so a flushed Send blocks in the
+// carrier's Write (bounded wire). Then the receiving side fails - the read
+// timeout expires or the peer writes garbage. After that error no call may stay
+// blocked: the Receive returns it, the blocked Send fails, Close returns.
+func runStuckSend(r *h.Run, trigger string, nsend int, delay time.Duration) {
+	label := fmt.Sprintf("send blocked on a non-reading peer (%d senders, flush delay %v), then %s", nsend, delay, trigger)
+	r.Journal("C19 %s", label)
+	var clock int64
+	ae, be := wire.Pair()
+	ae.SetCapacity(1024)
+	car := newCarrier(ae, &clock)
+	a := transport.NewBaseConn(car)
+	a.SetMaxWriteDelay(delay)
+	fail := func(key, msg string) {
+		car.mu.Lock()
+		calls := append([]string(nil), car.log...)
+		car.mu.Unlock()
+		if len(calls) > 60 {
+			calls = calls[len(calls)-60:]
+		}
+		r.Violation("stuck-send/"+key, label+": "+msg, map[string]interface{}{"case": label, "detail": msg, "carrier_calls": calls})
+	}
+	// senders: big flushed packets until the wire is full and the Write parks
+	sendDone := make(chan error, nsend)
+	for sd := 0; sd < nsend; sd++ {
+		go func(sd int) {
+			var err error
+			for i := 0; i < 64 && err == nil; i++ {
+				err = a.Send(mkPacket(sd, i, 900), i%2 == 1)
+			}
+			sendDone <- err
+		}(sd)
+	}
+	// wait (bounded) until the wire is full
+	full := false
+	for i := 0; i < 2000; i++ {
+		if be.Buffered() >= 1024 {
+			full = true
+			break
+		}
+		time.Sleep(time.Millisecond)
+	}
+	if !full {
+		r.Inconclusive(label + ": the wire never filled up")
+		_ = be.Close()
+		return
+	}
+	time.Sleep(2 * time.Millisecond) // shaping: let a sender park inside Write
+	var rerr error
+	switch trigger {
+	case "read timeout":
+		a.SetReadTimeout(15 * time.Millisecond)
+	case "garbage from the peer":
+		_, _ = be.Write([]byte{0x00, 0x00, 0xff, 0xff})
+	case "oversized packet from the peer":
+		a.SetReadLimit(64)
+		big, _ := ref.Encode(mkPacket(7, 7, 400))
+		_, _ = be.Write(big)
+	}
+	if !guard(fail, "Receive", func() { _, rerr = a.Receive() }) {
+		_ = be.Close()
+		return
+	}
+	if rerr == nil {
+		fail("no-error", "Receive returned a packet")
+	}
+	// the blocked senders must come back with an error
+	for sd := 0; sd < nsend; sd++ {
+		select {
+		case err := <-sendDone:
+			if err == nil {
+				fail("send-succeeds", "a sender finished all 64 sends without error although the peer read nothing and the wire holds 1024 bytes")
+			}
+		case <-time.After(15 * time.Second):
+			confirmed, stacks := stuck.Confirm(500*time.Millisecond, func() int { return int(ae.WrittenLen()) }, "transport.(*BaseConn)")
+			if confirmed {
+				fail("send-stays-blocked", fmt.Sprintf("after the receive error (%v) a Send is still blocked; parked goroutines, e.g.:\n%s", rerr, stacks[0]))
+			} else {
+				r.Inconclusive(label + ": sender slow, no confirmed stuck state")
+			}
+			_ = be.Close()
+			return
+		}
+	}
+	var e2 error
+	if guard(fail, "a flushed Send after the receive error", func() { e2 = a.Send(mkPacket(3, 1, 30), false) }) && e2 == nil {
+		fail("send-after-error-succeeds", "a flushed Send after a receive error returned nil (the connection must be closed)")
+	}
+	if guard(fail, "Receive after the receive error", func() { _, e2 = a.Receive() }) && e2 == nil {
+		fail("receive-after-error-succeeds", "Receive succeeded after a receive error")
+	}
+	guard(fail, "Close after the receive error", func() { _ = a.Close() })
+	_ = be.Close()
+	r.Eval()
+	r.NonTrivial(label)
+}
+
 func TestCheck(t *testing.T) {
 	r := h.New("C19", "fault_enumeration")
-	r.Rule("A/B: 1-16 goroutines send numbered, checksummed packets (sizes around 4096) on one connection with PRNG async/sync patterns and flush delays 0-50 ms while a third goroutine calls Close after a PRNG-chosen number of sends returned (or after all); the peer drains until EOF; oracles: every packet intact, per-sender order, no duplicates, every Send that returned nil before Close was called arrived, wire bytes parse into whole sent packets, a pending Receive is unblocked, then flushed sends fail at once, buffered sends fail once the flush delay elapsed, Receive fails, a second Close returns — on the in-memory wire and again on TCP and WebSocket loopback pairs. D: an instrumented carrier fails at every k-th Read / Write / Close / SetReadDeadline call of a scripted send/receive sequence, for flush delays 0 and 5 ms. E: read timeouts 10-30 ms with a silent peer on wire, TCP and WebSocket. Everything runs under the race detector. Non-trivial = runs with >= 2 concurrent senders or a close/fault while sends are in progress; distinct by case; distinct arrival interleavings are counted separately")
-	r.Assume("peers always drain (a Close that waits behind a Send blocked on a non-reading peer is the recorded C13 mechanism)")
+	r.Rule("A/B: 1-16 goroutines send numbered, checksummed packets (sizes around 4096) on one connection with PRNG async/sync patterns and flush delays 0-50 ms while a third goroutine calls Close after a PRNG-chosen number of sends returned (or after all); the peer drains until EOF; oracles: every packet intact, per-sender order, no duplicates, every Send that returned nil before Close was called arrived, wire bytes parse into whole sent packets, a pending Receive is unblocked, then flushed sends fail at once, buffered sends fail once the flush delay elapsed, Receive fails, a second Close returns — on the in-memory wire and again on TCP and WebSocket loopback pairs. D: an instrumented carrier fails at every k-th Read / Write / Close / SetReadDeadline call of a scripted send/receive sequence, for flush delays 0 and 5 ms. E: read timeouts 10-30 ms with a silent peer on wire, TCP and WebSocket. F: 1-3 senders blocked in the carrier's Write on a non-reading peer (bounded wire), then a read timeout / garbage / an oversized packet fails the Receive: the blocked Sends must fail, later calls fail at once, Close returns. Everything runs under the race detector. Non-trivial = runs with >= 2 concurrent senders or a close/fault while sends are in progress; distinct by case; distinct arrival interleavings are counted separately")
+	r.Assume("in parts A-E peers always drain; part F blocks a Send on a non-reading peer and then makes the receive side fail (a Close called first would wait behind the blocked Send - that is the recorded C13 mechanism and is not exercised here)")
 	rng := r.Rand("c19")
 	mk := func(kind string, i int) sendCase {
 		sc := sendCase{Kind: kind, Senders: 1 + rng.Intn(16), PerS: 1 + rng.Intn(12), Delay: []time.Duration{0, 0, time.Millisecond, 5 * time.Millisecond, 20 * time.Millisecond, 50 * time.Millisecond}[rng.Intn(6)], AsyncPat: rng.Int63()}
@@ -642,6 +740,17 @@ func TestCheck(t *testing.T) {
 			}
 		}
 	}
+	// F: receive error while a send is blocked on a non-reading peer
+	nstuck := 0
+	for rep := 0; rep < r.Pick(2, 30); rep++ {
+		for _, trig := range []string{"read timeout", "garbage from the peer", "oversized packet from the peer"} {
+			for _, ns := range []int{1, 3} {
+				runStuckSend(r, trig, ns, []time.Duration{0, 5 * time.Millisecond}[(rep+ns)%2])
+				nstuck++
+			}
+		}
+	}
+	r.Count("stuck_send_runs", int64(nstuck))
 	_ = websocket.BinaryMessage
-	os.Exit(r.Finish(50))
+	h.Exit(r.Finish(50))
 }
